@@ -103,3 +103,49 @@ PROPS["C14"] = {
     "outside": "the 15 s liveness timer that flips node status; views that differ between nodes; cluster sizes above 5 (3 in the quick tier)",
     "explanation": "bounded symbolic execution of the real source (concrete cluster size, symbolic liveness and hash) + SMT",
 }
+
+
+def _c16(tier, seed):
+    from rs2smt import c16
+    return c16.run(tier, seed)
+
+
+def _c17(tier, seed):
+    from rs2smt import c17
+    return c17.run(tier, seed)
+
+
+_S_TRUSTED = ["rs2smt: /verif/rs2smt/rsparse.py (parser for the Rust subset), rseval.py (symbolic evaluator, lenient mode for decision skeletons), "
+              "routes.py (actix builder calls modelled as data constructors), validated on every run against the native build (translator validation)",
+              "z3 5.1.0 (strings + regular expressions)"]
+
+PROPS["C16"] = {
+    "level": "other",
+    "files": ["src/openapi/middle/auth_middle.rs", "src/web_config.rs", "src/openapi/mod.rs", "src/grpc/handler/mod.rs"],
+    "smt": _c16,
+    "trusted_base": _S_TRUSTED,
+    "assumptions": [
+        "middleware wiring as in src/main.rs: the API port wraps app_config(..) in ApiCheckAuth (not re-derived)",
+        "actix route matching: scope prefix ++ resource pattern, {x} = one non-empty segment, {x:re} = re, case sensitive, no path normalisation",
+        "environment of the middleware: path, header/query/body token and session lookup are arbitrary (valid_token is an uninterpreted predicate on the token string); "
+        "calls without a model (metrics, response building) are opaque and assumed not to forward the request",
+        "gRPC: PayloadUtils::get_payload_type returns an arbitrary type string; RequestMeta fields arbitrary; cluster-internal types = constants named RAFT_* and NAMING_ROUTE_REQUEST",
+    ],
+    "outside": "token issuance and expiry (session cache), actix internals, how token_session / cluster_token_is_valid are computed",
+    "explanation": "bounded symbolic evaluation of the real source text (routes, regexes, ignore lists, middleware and dispatcher bodies) into SMT "
+                   "(strings/regular languages); every obligation is a language-inclusion or implication query decided by z3",
+}
+PROPS["C17"] = {
+    "level": "other",
+    "files": ["src/user/permission.rs", "src/console/middle/login_middle.rs", "src/console/api.rs", "src/web_config.rs"],
+    "smt": _c17,
+    "trusted_base": _S_TRUSTED,
+    "assumptions": [
+        "middleware wiring as in src/main.rs: the console port wraps console_config in CheckLogin",
+        "API calls = registered routes under /rnacos/api/; login endpoints = the property's list (login, captcha, login config, OAuth2 callback, both API versions)",
+        "a visitor's permitted non-GET routes are session handling and changing the own password (login/logout/oauth2 login/reset_password); everything else non-GET counts as a data change",
+        "session lookup is an uninterpreted predicate on the token string; role permission inside the middleware is the result of UserRole::match_url_by_roles (analysed separately)",
+    ],
+    "outside": "session storage and expiry; per-handler checks inside the handlers",
+    "explanation": "bounded symbolic evaluation of the real source text (route table, role tables, middleware body) into SMT; queries decided by z3",
+}
